@@ -455,7 +455,7 @@ class Bin(Factory, Container):
                 value.fill(None, float(hi))
 
         else:
-            inrange = q < self.high
+            inrange = (q >= self.low) & (q < self.high)
             q = np.array(q, dtype=np.float64)
             np.subtract(q, self.low, q)
             np.multiply(q, self.num, q)
